@@ -5,7 +5,7 @@
    that (in-place numpy updates, shared dictionaries) is what the correspondence and the
    before/after oracle check on every run (tested_only: the numpy aliasing of boundary matrices). *)
 From Coq Require Import String ZArith Bool Arith List.
-From SV Require Import Names NamesFacts ListFacts Rep Fresh Complex Atomic RepInv Reach Homology Filtration Gen World WorldProofs CtorFrame DeepcopyFrame DeepcopyContents FiltCopyFrame CtorHeapFrame ComplexesFrame.
+From SV Require Import Names NamesFacts ListFacts Rep Fresh Complex Atomic RepInv Reach Homology Filtration Gen World WorldProofs CtorFrame DeepcopyFrame DeepcopyContents FiltCopyFrame CtorHeapFrame ComplexesFrame IntoFrame.
 
 (* any read-only query -- Betti numbers, normal forms, cycle bases, boundaries, Euler
    characteristic and integral, comparisons, ... -- returns the world it was given *)
@@ -102,3 +102,21 @@ Theorem C08_complexes_writes_no_existing_dictionary :
   forall h, fst h < w_uid w -> heap_get (w_heap w') h = heap_get (w_heap w) h.
 Proof. exact complexes_heap_frame. Qed.
 Print Assumptions C08_complexes_writes_no_existing_dictionary.
+
+(* constructors filling a caller-supplied target -- copy(c) / snap into c, and compose with a
+   target: only dictionaries of the target's own owner may be written, so nothing of the source
+   or of the operands (which have other owners, C09_different_owners_share_nothing) is *)
+Theorem C08_copy_into_target_writes_only_the_targets_cells :
+  forall w v x w' o t,
+  (exec w (CCopyInto v x) = (w', o) \/ exec w (CSnapInto v x) = (w', o)) ->
+  vget (w_vars w) x = Some (OCx t) -> owned t ->
+  forall h, fst h <> r_uid t -> heap_get (w_heap w') h = heap_get (w_heap w) h.
+Proof. exact copy_into_exec_frame. Qed.
+Print Assumptions C08_copy_into_target_writes_only_the_targets_cells.
+
+Theorem C08_compose_into_target_writes_only_the_targets_cells :
+  forall w a b d w' o t,
+  exec w (CComposeInto a b d) = (w', o) -> vget (w_vars w) d = Some (OCx t) -> owned t ->
+  forall h, fst h <> r_uid t -> heap_get (w_heap w') h = heap_get (w_heap w) h.
+Proof. exact compose_into_exec_frame. Qed.
+Print Assumptions C08_compose_into_target_writes_only_the_targets_cells.
